@@ -3,10 +3,15 @@
 import json, sys
 pid = sys.argv[1]; wt = sys.argv[2]; out = sys.argv[3]
 VARIANT = sys.argv[4] if len(sys.argv) > 4 else ''
-sfx = ('c', 'd') if VARIANT else ('a', 'b')
+sfx = {'': ('a', 'b'), 'r2': ('c', 'd'), 'r3': ('e', 'f')}.get(VARIANT, ('c', 'd'))
+DIV3 = '''
+
+Diversity requirement for this round: the following kinds have already been tried, do NOT use them: (1) a cache/memoisation keyed on too little, (2) a shortcut that skips work when a tensor sums to zero / is all zero / has requires_grad False or runs under no_grad, (3) a rewrite of the symmetric-extension index helper, (4) a special fast path for 2-tap (Haar) filters, (5) choosing the filtering order from tensor strides, (6) silently casting the module or the input to another dtype, (7) swapping row/column filters of a 4-tuple. Use something else, for example: an error that needs SEVERAL CHANNELS or a BATCH > 1 together with some other condition (channel interleaving of grouped convolutions, reshapes that mix batch and channel), index/pad arithmetic that is only wrong when a size is congruent to a particular value modulo 4 or 8 or is close to the filter length, a level-dependent error that appears only at the THIRD or deeper decomposition level, an output that ALIASES an input or another output (a view instead of a copy) so that a later in-place operation by the caller corrupts it, a wrong result only for ONE of the six orientations / three sub-bands / one of the real-imaginary parts, an error for filter banks whose lowpass and highpass filters have DIFFERENT LENGTHS or ODD length, an error that depends on the ORDER in which two options are processed, or a numerically conditional branch (a threshold on magnitudes) that changes the value only for inputs in a narrow range.'''
 DIV = '''
 
 Diversity requirement for this round: do NOT use (1) a cache/memoisation keyed on too little, (2) a shortcut that skips work when a tensor sums to zero / is all zero, or (3) a rewrite of the symmetric-extension index helper - those have been tried. At least one of your two changes must be of one of these kinds: an error in how an OPTION COMBINATION is handled (two options that each work alone), a change whose effect depends on TENSOR LAYOUT / DTYPE / requires_grad FLAGS rather than on sizes, a wrong constant or sign that only matters for ONE filter family or one mode, or TWO COOPERATING SITES (e.g. a helper and its caller, forward and backward) that each look correct alone.''' if VARIANT else ''
+if VARIANT == 'r3':
+    DIV = DIV3
 p = [json.loads(l) for l in open('/verif/properties.jsonl') if json.loads(l)['id'] == pid][0]
 print(f"""You are helping to evaluate a verification effort for the open-source Python library fbcotter/pytorch_wavelets (differentiable 1D/2D DWT, stationary WT, dual-tree complex wavelet transform, DTCWT ScatterNet, on top of PyTorch).
 
